@@ -2,7 +2,9 @@ package main
 
 import (
 	"fmt"
+	"go/types"
 	"sort"
+	"strings"
 
 	"golang.org/x/tools/go/ssa"
 )
@@ -269,7 +271,7 @@ func lockCtx(c *Ctx, only *ssa.Function) {
 				return
 			}
 			fn := fieldVarOf(fa).Name()
-			if fn == "opt" || fn == "mu" {
+			if fn == "mu" || immutableDBFields(c)[fn] {
 				return
 			}
 			// freshly allocated DB (Open) is not shared
@@ -512,4 +514,57 @@ func ruleCommitNoopWhenEmpty(c *Ctx) {
 		c.ok(fnName(commit), "state change only with pending writes", c.P.pos(commit.Pos()), fmt.Sprintf("all %d state-changing instructions are dominated by len(pendingWrites) != 0", n))
 	}
 	c.minInstances("state-changing instructions in Commit", n, 8)
+}
+
+var immDBMemo map[string]bool
+
+// immutableDBFields: fields of DB that are only ever stored on a freshly
+// allocated DB (construction in Open) and are therefore read-only once the DB
+// is shared (opt, the id generator, ...). Derived from the stores in the code.
+func immutableDBFields(c *Ctx) map[string]bool {
+	if immDBMemo != nil {
+		return immDBMemo
+	}
+	st := c.P.Named("", "DB").Underlying().(*types.Struct)
+	mutable := map[string]bool{}
+	for _, f := range c.P.SrcFuncs {
+		instrs(f, func(in ssa.Instruction) {
+			s, ok := in.(*ssa.Store)
+			if !ok {
+				return
+			}
+			fa, ok := s.Addr.(*ssa.FieldAddr)
+			if !ok || !namedIs(fa.X.Type(), "DB") {
+				return
+			}
+			root, sfx := splitPath(fa.X)
+			if _, isAlloc := root.(*ssa.Alloc); isAlloc && sfx == "" {
+				return
+			}
+			mutable[fieldVarOf(fa).Name()] = true
+		})
+	}
+	immDBMemo = map[string]bool{}
+	for i := 0; i < st.NumFields(); i++ {
+		n := st.Field(i).Name()
+		// only plain values and pointers to objects whose own mutation is internally synchronised or absent;
+		// maps, slices and index objects are mutated through the reference, so they are never exempt
+		switch st.Field(i).Type().Underlying().(type) {
+		case *types.Map, *types.Slice:
+			continue
+		}
+		_, isPtr := st.Field(i).Type().Underlying().(*types.Pointer)
+		if !mutable[n] && !(isPtr && isIndexObjectType(st.Field(i).Type())) {
+			immDBMemo[n] = true
+		}
+	}
+	return immDBMemo
+}
+
+func isIndexObjectType(t types.Type) bool {
+	n := namedOf(t)
+	if n == nil || n.Obj().Pkg() == nil {
+		return false
+	}
+	return strings.HasPrefix(n.Obj().Pkg().Path(), modPath)
 }
